@@ -278,7 +278,10 @@ def handle : Handler
       let g ← graphRat? n ip ix dt
       let m := denseOf g
       let nnz := ((List.range g.n).map fun i => (g.row i).length).sum
-      some (showOptList (closenessFit (α := Rat) g.n nnz (edgeOfDense m)))) "bad-args"
+      -- one node: `(n-1)/n / mean([0])` is 0/0, numpy answers NaN (the theorems carry the guard `2 ≤ n`)
+      match closenessFit (α := Rat) g.n nnz (edgeOfDense m) with
+      | .ok (some _) => if g.n == 1 then some "nan" else some (showOptList (closenessFit (α := Rat) g.n nnz (edgeOfDense m)))
+      | r => some (showOptList r)) "bad-args"
   | "c04.spec_closeness", [n, ip, ix, dt, x, eps] => some <| Option.getD (do
       let g ← graphRat? n ip ix dt
       let x ← ratList? x
